@@ -866,6 +866,39 @@ func c03RefGraph(r *Rng) string {
 	return b.String()
 }
 
+// c03FragGraph: a request whose named fragments spread each other at random — chains, diamonds, cycles, cycles
+// that are only reached through a lead-in fragment that is not on them, with names in random order (the cycle
+// check walks the fragments by name).  The property: whatever the graph, the request returns.
+func c03FragGraph(r *Rng) string {
+	n := 2 + r.Intn(5)
+	names := make([]string, n)
+	for i := range names {
+		names[i] = fmt.Sprintf("%c%d", 'A'+byte(r.Intn(26)), i)
+	}
+	var b strings.Builder
+	b.WriteString("{ b")
+	for k := 0; k < 1+r.Intn(2); k++ {
+		b.WriteString(" ..." + Pick(r, names))
+	}
+	b.WriteString(" }")
+	for i, nm := range names {
+		b.WriteString(" fragment " + nm + " on Query { b")
+		switch {
+		case r.Chance(12):
+			b.WriteString(" ..." + nm) // itself
+		case r.Chance(70):
+			for k := 0; k < 1+r.Intn(2); k++ {
+				b.WriteString(" ..." + names[r.Intn(n)])
+			}
+		}
+		if r.Chance(30) && i > 0 {
+			b.WriteString(" o { ..." + names[r.Intn(n)] + "X }")
+		}
+		b.WriteString(" }")
+	}
+	return b.String()
+}
+
 func c03Deep(open, close string, n int) string { return strings.Repeat(open, n) + strings.Repeat(close, n) }
 
 func runC03(o *Out, r *Rng, tier string) {
@@ -946,6 +979,9 @@ func runC03(o *Out, r *Rng, tier string) {
 		{"resolve", "{ ...F } fragment F on Query { ...F }", `{}`},
 		{"resolve", "{ o { ...F } } fragment F on Obj { next { ...F } }", `{}`},
 		{"resolve", "query($v: ){ b }", `{}`},
+		{"resolve", "{ ...Entry } fragment Entry on Query { b ...Loop } fragment Loop on Query { b ...Loop }", `{}`},
+		{"resolve", "{ ...Alpha } fragment Alpha on Query { ...Beta } fragment Beta on Query { ...Gamma } fragment Gamma on Query { b ...Beta }", `{}`},
+		{"resolve", "{ b } fragment Zed on Query { ...Yak } fragment Yak on Query { ...Zed }", `{}`},
 		{"resolve", "{ a(x: 1) }", `{}`}, {"resolve", "{ a }", `{}`}, {"resolve", "{ o { two(p: 1) } }", `{}`},
 		{"resolve", "{ b }", `{"nilvars":true}`},
 		{"resolve", "{ o " + strings.Repeat("{ next ", 120) + "{ name }" + strings.Repeat(" }", 120) + " }", `{}`},
@@ -985,6 +1021,10 @@ func runC03(o *Out, r *Rng, tier string) {
 				cases = append(cases, c03Entry("resolve", Pick(rr, strategies), rq[0], rq[1], "request"))
 			}
 		case 3:
+			if rr.Chance(35) {
+				cases = append(cases, c03Entry("resolve", Pick(rr, strategies), c03FragGraph(rr), "{}", "request-fraggraph"))
+				continue
+			}
 			if rr.Chance(50) {
 				cases = append(cases, c03Entry("load", c03RefGraph(rr), "", "", "load-refgraph"))
 				continue
